@@ -86,14 +86,14 @@ type c08World struct {
 
 const c08NUsers = 4
 
-var c08BankDenoms = []string{"ujkl", "uatom", "awei"}
+var c08BankDenoms = []string{"ujkl", "uatom", "ibc/27394FB092D2ECCD56123C74F36E4C1F926001CEADA9CA97EA622B25F41E5EB2"}
 
 func c08NewWorld() (*c08World, error) {
 	e, err := NewEnv()
 	if err != nil {
 		return nil, err
 	}
-	w := &c08World{e: e, addrTab: map[string]c08Addr{}, strs: map[string]uint64{"{}": 0}, denoms: map[string]uint64{"ujkl": 0, "uatom": 1, "awei": 2}}
+	w := &c08World{e: e, addrTab: map[string]c08Addr{}, strs: map[string]uint64{"{}": 0}, denoms: map[string]uint64{"ujkl": 0, "uatom": 1, "ibc/27394FB092D2ECCD56123C74F36E4C1F926001CEADA9CA97EA622B25F41E5EB2": 2}}
 	w.modAddr = e.ModAddr(rnstypes.ModuleName)
 	w.polAddr, err = jtypes.GetPOLAccount()
 	if err != nil {
@@ -208,7 +208,7 @@ type c08Prim struct {
 type c08Bal struct {
 	Acct  uint64
 	Denom uint64
-	Amt   string // decimal; "awei" balances do not fit int64
+	Amt   string // decimal; the voucher balances do not fit int64
 }
 type c08Obs struct {
 	Height   int64
@@ -321,7 +321,7 @@ func (w *c08World) observe() *c08Obs {
 		}
 	}
 	for _, c := range e.App.BankKeeper.GetAllBalances(e.Ctx, w.modAddr) {
-		if c.Denom != "ujkl" && c.Denom != "uatom" && c.Denom != "awei" {
+		if c.Denom != "ujkl" && c.Denom != "uatom" && c.Denom != "ibc/27394FB092D2ECCD56123C74F36E4C1F926001CEADA9CA97EA622B25F41E5EB2" {
 			o.ModExtra[c.Denom] = c.Amount.BigInt()
 		}
 	}
@@ -975,7 +975,7 @@ func (g *c08Run) fund() error {
 			return err
 		}
 		if i != 3 { // an 18-decimal denom: 2^66 base units each (about 74 tokens)
-			c := sdk.NewCoins(sdk.NewCoin("awei", sdk.NewIntFromBigInt(new(big.Int).Lsh(big.NewInt(1), 66))))
+			c := sdk.NewCoins(sdk.NewCoin("ibc/27394FB092D2ECCD56123C74F36E4C1F926001CEADA9CA97EA622B25F41E5EB2", sdk.NewIntFromBigInt(new(big.Int).Lsh(big.NewInt(1), 66))))
 			if err := w.e.App.BankKeeper.MintCoins(w.e.Ctx, minttypes.ModuleName, c); err != nil {
 				return err
 			}
@@ -1180,10 +1180,10 @@ func (g *c08Run) deterministic() error {
 		[]c08Op{{Kind: "Bid", S: C, Name: long, Denom: "ujkl", Amt: 321}, {Kind: "Bid", S: B, Name: "nobody.jkl", Denom: "uatom", Amt: 5}, {Kind: "CancelBid", S: C, Name: long},
 			{Kind: "CancelBid", S: B, Name: "nobody.jkl"}, {Kind: "CancelBid", S: C, Name: long}, reg(A, long)},
 		// bids of an 18-decimal denom around 2^63 base units: cancelled once, accepted once, never twice
-		[]c08Op{reg(A, c08N1), {Kind: "Bid", S: C, Name: c08N1, Denom: "awei", Big: two63}, {Kind: "Bid", S: B, Name: c08N1, Denom: "awei", Big: two64p}, {Kind: "CancelBid", S: C, Name: c08N1},
+		[]c08Op{reg(A, c08N1), {Kind: "Bid", S: C, Name: c08N1, Denom: "ibc/27394FB092D2ECCD56123C74F36E4C1F926001CEADA9CA97EA622B25F41E5EB2", Big: two63}, {Kind: "Bid", S: B, Name: c08N1, Denom: "ibc/27394FB092D2ECCD56123C74F36E4C1F926001CEADA9CA97EA622B25F41E5EB2", Big: two64p}, {Kind: "CancelBid", S: C, Name: c08N1},
 			{Kind: "CancelBid", S: C, Name: c08N1}, {Kind: "AcceptBid", S: A, Name: c08N1, T: B}, {Kind: "AcceptBid", S: A, Name: c08N1, T: B}, {Kind: "CancelBid", S: B, Name: c08N1},
-			{Kind: "Bid", S: C, Name: c08N1, Denom: "awei", Big: two63m1}, {Kind: "Bid", S: A, Name: c08N1, Denom: "awei", Big: two63}, {Kind: "AcceptBid", S: B, Name: c08N1, T: A}, {Kind: "CancelBid", S: C, Name: c08N1},
-			{Kind: "List", S: A, Name: c08N1, Denom: "awei", Big: two64p}, {Kind: "Buy", S: C, Name: c08N1}})
+			{Kind: "Bid", S: C, Name: c08N1, Denom: "ibc/27394FB092D2ECCD56123C74F36E4C1F926001CEADA9CA97EA622B25F41E5EB2", Big: two63m1}, {Kind: "Bid", S: A, Name: c08N1, Denom: "ibc/27394FB092D2ECCD56123C74F36E4C1F926001CEADA9CA97EA622B25F41E5EB2", Big: two63}, {Kind: "AcceptBid", S: B, Name: c08N1, T: A}, {Kind: "CancelBid", S: C, Name: c08N1},
+			{Kind: "List", S: A, Name: c08N1, Denom: "ibc/27394FB092D2ECCD56123C74F36E4C1F926001CEADA9CA97EA622B25F41E5EB2", Big: two64p}, {Kind: "Buy", S: C, Name: c08N1}})
 	// bids on a name written with a blank inside (only the TLD of a bid's name is checked): its slot is its own, a
 	// second bid replaces and refunds the first, cancelling it hands back exactly what it holds, the blank-less
 	// neighbour is another slot
@@ -1328,7 +1328,7 @@ func (g *c08Run) random() error {
 				}
 				o.Denom, o.Amt = PickOne(p, []string{"ujkl", "ujkl", "ujkl", "uatom", "nosuch", "ujkl,5uatom"}), PickOne(p, []int64{0, 1, 50, 100, 1000, 1001, 1_000_000, 2_000_000_000_000, -3})
 				if p.Chance(1, 8) {
-					o.Denom, o.Big = "awei", PickOne(p, []string{"9223372036854775807", "9223372036854775808", "18446744073709551621", "1000000000000000000"})
+					o.Denom, o.Big = "ibc/27394FB092D2ECCD56123C74F36E4C1F926001CEADA9CA97EA622B25F41E5EB2", PickOne(p, []string{"9223372036854775807", "9223372036854775808", "18446744073709551621", "1000000000000000000"})
 				}
 				if p.Chance(1, 12) {
 					o.Name = strings.Repeat("abcdefghij", 7) + PickOne(p, []string{".jkl", ".ibc"})
